@@ -4,6 +4,16 @@ import json, os, subprocess
 HERE = os.path.dirname(os.path.dirname(os.path.abspath(__file__)))
 
 CLAIMED = {
+ "C01": dict(
+   technique="stateful property testing / fuzzing: generated host-call histories (proptest, shrinking) through a protocol-respecting driver with crash, idle-after-error, caret-rendering and liveness oracles; child-process battery for native-stack exhaustion; libFuzzer target in the thorough tier",
+   text="Generated sessions (structured programs + command scripts, hostile boundary lines, raw Unicode) are driven through the real Interpreter under the turn-taking protocol; every call must return (catch_unwind), every Err must leave the interpreter Idle with a renderable error, breaks and replies must produce the documented states, and a final PRINT 7 must work. Boundary numerals (line 2^64-1, subscripts near 2^32/2^63, 19-40 subscripts, seeds >= 2^44) are enumerated exhaustively in fixed scripts; 10 nesting constructs up to 300000 levels deep are run in child processes on an 8 MiB stack for both the interpreter and the analyzer.",
+   note="Panics are observed with catch_unwind in an overflow-checked optimised build; stack exhaustion is decided per build profile by exit status of child processes; hangs are watchdog exits (2), never violations.",
+   design="4/C01"),
+ "C05": dict(
+   technique="property-based fuzzing of file texts (grammar-generated programs + document-level mutations, mutated repo programs, atom soup, raw Unicode) against a validity predicate over diagnostics and token ranges; libFuzzer target in the thorough tier",
+   text="For generated documents SourceFileAnalyzer::analyze must return, yield one token list per file line, and every diagnostic must map to Some((line, range)) on the line it names, inside that line and on character boundaries; per-line token ranges must be ordered, disjoint and in bounds. Duplicated / emptied / untokenizable redefinitions, CRLF, multi-byte characters outside strings and u64-boundary line numbers are forced by the generator (class histogram in the evidence). Deep nesting of file texts is covered by C01's child-process battery (target 'analyze').",
+   note="Trusts the 80-line predicate check_document in c05.rs.",
+   design="4/C05"),
  "C04": dict(
    technique="stateful property testing: generated edit histories (proptest vec of ops + interpreter of ops) against a BTreeMap reference model; differential against a fresh interpreter",
    text="Generated histories of add / replace / delete / failed-edit / LIST / RUN operations over colliding and extreme line numbers (0, leading zeros, 2^63, 2^64-1, 20+-digit pseudo numbers). With serial PRINT payloads the oracle is a BTreeMap and is independent of the tokenizer; with arbitrary statements the used interpreter must LIST and RUN exactly like a fresh one holding the surviving lines. Sampling of the history space; collisions are forced by a small number pool.",
